@@ -3,6 +3,7 @@ module verifharness
 go 1.16
 
 require (
+	github.com/hashicorp/raft v1.1.1
 	github.com/ipfs/go-cid v0.0.7
 	github.com/ipfs/go-ipld-cbor v0.0.5
 	github.com/ipfs/ipfs-cluster v0.0.0
